@@ -289,6 +289,15 @@ static std::map<int, std::unique_ptr<Actor>> g_actors;
 static std::map<int, uint32_t> g_actor_tid;     // actor -> quill thread id (for canonical notifier text)
 static std::map<int, std::shared_ptr<RecSink>> g_sinks_keepalive; // dropped when the script says so
 static std::map<int, RecSink*> g_sinks;
+// sinks the application built itself (std::make_shared) and hands to create_or_get_logger directly: the SinkManager
+// registry never sees them (sink line flag unreg=1)
+static std::map<int, std::weak_ptr<RecSink>> g_unreg;
+static std::shared_ptr<quill::Sink> lookup_sink(int sid)
+{
+  auto it = g_unreg.find(sid);
+  if (it != g_unreg.end()) { return it->second.lock(); }
+  return FE::get_sink("s" + std::to_string(sid));
+}
 static void forget_sink(int sid) { g_sinks.erase(sid); }
 static std::map<int, LoggerT*> g_loggers;
 static std::map<int, std::vector<int>> g_logger_sinks;
@@ -607,7 +616,7 @@ static std::string exec_op(std::vector<std::string> const& w)
     {
       int const sid = std::stoi(s);
       std::shared_ptr<quill::Sink> sp;
-      try { sp = FE::get_sink("s" + std::to_string(sid)); } catch (...) { return "noop"; }
+      try { sp = lookup_sink(sid); } catch (...) { return "noop"; }
       if (!sp) { return "noop"; }
       sinks.push_back(sp);
       sids.push_back(sid);
@@ -781,7 +790,15 @@ int main(int argc, char** argv)
     if (w[0] == "sink")
     {
       int const sid = std::stoi(w[1]);
-      auto sp = std::static_pointer_cast<RecSink>(FE::create_or_get_sink<RecSink>("s" + std::to_string(sid), sid));
+      bool unreg = false;
+      for (size_t i = 2; i < w.size(); ++i) { if (w[i] == "unreg=1") { unreg = true; } }
+      std::shared_ptr<RecSink> sp;
+      if (unreg)
+      {
+        sp = std::make_shared<RecSink>(sid);
+        g_unreg[sid] = sp;
+      }
+      else { sp = std::static_pointer_cast<RecSink>(FE::create_or_get_sink<RecSink>("s" + std::to_string(sid), sid)); }
       g_sinks[sid] = sp.get();
       g_sinks_keepalive[sid] = sp;
       for (size_t i = 2; i < w.size(); ++i)
@@ -817,7 +834,7 @@ int main(int argc, char** argv)
         {
           for (auto const& s : split(kv[1], ','))
           {
-            sinks.push_back(FE::get_sink("s" + s));
+            sinks.push_back(lookup_sink(std::stoi(s)));
             sids.push_back(std::stoi(s));
           }
         }
